@@ -28,19 +28,20 @@ def imp(target):
 
 def build_import_family(desc):
     """desc = (pu_edges bitmask over (1,2),(1,3),(2,3), cu1 modes (3 x 0..3), cu2 subset bitmask, nested_pu_imports bit, version)"""
-    edges, modes, cu2, nested, version = desc
+    edges, modes, cu2, nested, version = desc[:5]
+    bodies = desc[5] if len(desc) > 5 else (2, 2, 2)      # DIEs in each partial unit: 0 = childless, 1, 2
     pus = []
     for i in range(3):
-        body = [var(b"t%d" % i, tag="DW_TAG_typedef"), var(b"ns%d" % i, children=[var(b"in%d" % i)], tag="DW_TAG_namespace")]
+        body = [var(b"t%d" % i, tag="DW_TAG_typedef"), var(b"ns%d" % i, children=[var(b"in%d" % i)], tag="DW_TAG_namespace")][:bodies[i]]
         pus.append(g.cu_root(b"<pu%d>" % i, version=version, children=body, tag="DW_TAG_partial_unit", low_pc=None))
     pairs = [(0, 1), (0, 2), (1, 2)]
     for k, (a, b) in enumerate(pairs):
         if edges >> k & 1:
             node = imp(pus[b])
-            if nested:
+            if nested and len(pus[a].children) > 1:
                 pus[a].children[1].children.append(node)      # inside the namespace, one level down
             else:
-                pus[a].children.insert(1, node)               # between the two ordinary DIEs
+                pus[a].children.insert(min(1, len(pus[a].children)), node)      # between the two ordinary DIEs
     cu1_kids = [var(b"a1")]
     ns = var(b"nsA", children=[var(b"inA")], tag="DW_TAG_namespace")
     for i, m in enumerate(modes):
@@ -65,6 +66,17 @@ def family(thorough):
                 for nested in ((0, 1) if thorough else (edges % 2,)):
                     version = 2 + (edges + sum(modes) + cu2) % 4
                     yield (edges, modes, cu2, nested, version)
+
+
+def family_bodies(thorough):
+    """Partial units with 0, 1 or 2 DIEs of their own (an imported unit may be childless, or hold only an import)."""
+    for bodies in itertools.product((0, 1, 2), repeat=3):
+        if bodies == (2, 2, 2):
+            continue
+        for edges in ((0, 1, 5, 7) if thorough else (0, 1, 7)):
+            for modes in (((1, 1, 1), (3, 0, 2), (0, 1, 2), (2, 2, 0)) if thorough else ((1, 1, 1), (3, 0, 2), (0, 1, 2))):
+                for cu2 in (0, 7):
+                    yield (edges, modes, cu2, 0, 2 + (edges + sum(modes) + cu2 + sum(bodies)) % 4, bodies)
 
 
 LAWS = {
@@ -150,7 +162,7 @@ def _worker(d, task, extra):
     os.makedirs(dwbattery.DWDIR, exist_ok=True)
     path = os.path.join(dwbattery.DWDIR, "c05-%d.o" % os.getpid())
     out = {"files": 0, "queries": 0, "results": 0, "dies": 0, "bad": []}
-    for desc in itertools.islice(family(thorough), k, None, m):
+    for desc in itertools.islice(itertools.chain(family(thorough), family_bodies(thorough)), k, None, m):
         elf = build_import_family(desc)
         elf.write(path)
         view = dwmodel.View(elf, 1)
@@ -204,7 +216,7 @@ def replay(case):
             r = _sample_worker(d, [case["file"]], None)
             return any(b[2]["qid"] == case["qid"] for b in r["bad"])
         desc = json.loads(case["desc"])
-        desc = (desc[0], tuple(desc[1]), desc[2], desc[3], desc[4])
+        desc = (desc[0], tuple(desc[1]), desc[2], desc[3], desc[4]) + ((tuple(desc[5]),) if len(desc) > 5 else ())
         elf = build_import_family(desc)
         os.makedirs(dwbattery.DWDIR, exist_ok=True)
         path = os.path.join(dwbattery.DWDIR, "c05-replay-%d.o" % os.getpid())
@@ -240,7 +252,7 @@ def main(ctx):
         "distinct_nontrivial": n,
         "rule": "state = one DWARF input (generated import graph or sample binary); transition = one law query (must be empty on every DIE) or exact query compared with the model; "
                 "distinct = distinct file",
-        "bounds": {"compile_units": 2, "partial_units": 3, "import_graphs": "all DAGs x CU1 import modes (none/top/nested/twice)^3 x CU2 subsets" + ("" if thorough else " (CU2: none or all; nesting of PU imports alternates)"),
+        "bounds": {"compile_units": 2, "partial_units": 3, "partial_unit_bodies": "2 DIEs each for the full graph family; every assignment of 0 / 1 / 2 DIEs per partial unit for a set of import graphs", "import_graphs": "all DAGs x CU1 import modes (none/top/nested/twice)^3 x CU2 subsets" + ("" if thorough else " (CU2: none or all; nesting of PU imports alternates)"),
                    "dies_visited": ctx.counts.get("dies", 0), "sample_files": [os.path.basename(f) for f in sample_files()]},
     }
     return ctx.finish("model_checking", cov, [
